@@ -381,7 +381,7 @@ pub fn cli_games(thorough: bool) -> Vec<(String, Tree)> {
         res = res.into_iter().step_by(4).collect();
     }
     for (name, tree) in families() {
-        if ["matching_pennies", "dominated_action", "kuhn", "no_decision_p2", "single_terminal", "deep_chain_3", "wide_shared_3", "rare_chance_1e1", "two_level_own_chance", "two_level_own_p2", "varying_visits"].contains(&name.as_str()) {
+        if ["matching_pennies", "dominated_action", "kuhn", "no_decision_p2", "single_terminal", "deep_chain_3", "wide_shared_3", "rare_chance_1e1", "two_level_own_chance", "two_level_own_p2", "varying_visits", "hidden_then_own"].contains(&name.as_str()) {
             res.push((name, tree));
         }
     }
